@@ -77,6 +77,8 @@ def rg_part(chk, tier, recs):
     exact += b"y" * (65536 - len(exact) - 1) + b"\n"          # exactly 64 KiB of complete lines
     assert len(exact) == 65536
     inputs += [exact + b"\x00\nm\n", exact + b"\x00m\n", exact[:-2] + b"\n\x00\nm\n"]
+    # one line longer than the buffer with the NUL far into it (and beyond the first 64 KiB of the file)
+    inputs += [b"m" + b"y" * 70000 + b"\x00tail\nm\n", b"x\nm\n" + b"m" + b"y" * 66000 + b"\x00\n", b"m\n" + b"y" * 140000 + b"m\x00\nm\n"]
     inputs += [filler + b"m\nm\x00\nm\n", b"m\n" + filler + b"\x00\nm\n", filler + b"x\x00m\n",
                b"m\nm\nm\n" + filler + b"a\x00b\nm\n", b"m\n" * 3 + filler + filler + b"m\x00\n", filler + b"m\n"]
     if tier == "quick":
